@@ -15,8 +15,7 @@ class Unpicklable:
 
 
 class TooLarge:
-    def __reduce__(self):
-        raise struct.error("simulated: 'i' format requires -2147483648 <= number <= 2147483647")
+    """pickles fine; the simulated pipe refuses it the way `send_bytes` refuses > 2 GiB (struct.error)"""
 
 
 def _raise_unpickle():
@@ -64,12 +63,13 @@ def task(i, spec, arg=None):
         E.ENG.op("taskend", None, i)
     finally:
         me.in_body = None
+    me.tasks_done.append(i)
     body = spec.get("body", "ok")
     if body == "die":
         # the task takes its worker down (os._exit / segfault)
         me.killed = True
         me.proc._die(spec.get("code", -11))
-        E.ENG.events.append((me.name, "DIE", f"task({i})"))
+        E.ENG.events.append((me.name, "DIE", f"task({i})", E.ENG.steps))
         raise E.ActorKilled()
     if body == "raise":
         if spec.get("exc") == "unpicklable":
